@@ -35,7 +35,7 @@ def taskpool(tier, v, wd):
     # (A) the model of the pool as it is meant to work (claim re-checked): exhaustive
     for name, text, kw in [
         ("UdpTaskPool_gen_mc.cfg", cfg_text(False, 1, INVS), {}),
-    ] + ([("UdpTaskPool_gen_mc2.cfg", cfg_text(False, 2, INVS, qids="{1, 2, 3, 4}", chans="{1, 2, 3}", cap=1, maxtimer=1), {})] if tier != "quick" else []):
+    ] + ([("UdpTaskPool_gen_mc2.cfg", cfg_text(False, 2, INVS, qids="{1, 2, 3}", chans="{1, 2, 3}", cap=1, maxtimer=1, producers="MC2"), {})] if tier != "quick" else []):
         with open(os.path.join(sd, name), "w") as f:
             f.write(text)
         r = vlib.tlc(wd, "UdpTaskPool", name, timeout=3000)
